@@ -36,7 +36,8 @@ class Engine(Interp, ExprMixin, StmtMixin, CallMixin, MethodMixin):
     # ------------------------------------------------------------------ names in contract text
     def contract_names_for(self, c, mod):
         names = CallMixin.contract_names_for(self, c, mod)
-        names.update({'Int': api.Int, 'Str': api.Str, 'Bool': api.Bool})
+        import operator as _op
+        names.update({'Int': api.Int, 'Str': api.Str, 'Bool': api.Bool, 'operator': _op})
         return names
 
     # ------------------------------------------------------------------ one contract
